@@ -147,10 +147,15 @@ def run_unit(spec_path, root, seed=None, canary=True, std_contracts=None, tag=""
                     break
         res.failures.append(f)
     if res.failures:
-        if any(not f["semantic"] for f in res.failures):
-            bad = [f for f in res.failures if not f["semantic"]][0]
-            res.status, res.reason = "undecided", "non-semantic verifier error: %s (generated line %d)" % (bad["message"][:200], bad["gen_line"])
+        # a resource-limit message on a function that ALSO has a semantic failure is the solver giving up while looking
+        # for further errors: the semantic failure stands.  A function with only limit / unsupported errors is undecided.
+        sem_fns = {f["fn"] for f in res.failures if f["semantic"]}
+        bad = [f for f in res.failures if not f["semantic"]
+               and not (any(x in f["message"].lower() for x in LIMITS) and f["fn"] in sem_fns and f["fn"] is not None)]
+        if bad:
+            res.status, res.reason = "undecided", "non-semantic verifier error: %s (generated line %d)" % (bad[0]["message"][:200], bad[0]["gen_line"])
         else:
+            res.failures = [f for f in res.failures if f["semantic"]]
             res.status = "violation"
     elif rc != 0 or not vr.get("success", False):
         res.status, res.reason = "undecided", "verus rc=%s without classified errors" % rc
